@@ -719,6 +719,98 @@ fn histories(fx: &Fixture, tier: Tier, st: &mut Stats, only: Option<&Value>) {
     }
 }
 
+
+/// every leaf of `a` is in `b` under the same path with the same value
+fn leaves_kept(a: &Value, b: &Value) -> bool {
+    match a {
+        Value::Object(o) => o.iter().all(|(k, v)| b.get(k).map_or(false, |w| leaves_kept(v, w))),
+        Value::Array(x) => b.as_array().map_or(false, |y| x.len() <= y.len() && x.iter().zip(y.iter()).all(|(v, w)| leaves_kept(v, w))),
+        other => other == b,
+    }
+}
+
+/// one response written by several sinks of a combined policy: what the first sinks left in the response handed back (their
+/// notes about columns that do not resolve) is still there after the later ones have written. Every ordered pair and triple
+/// of four CSV sinks (two with a failing column each, one clean, one JSON lines) x a successful and a failing query
+fn combined_sinks(fx: &Fixture, st: &mut Stats) {
+    let qa = query_alphabet();
+    let sinks: Vec<(&str, Value)> = vec![
+        ("csv_alpha_fails", json!({"type": "csv", "sorted": false, "mapping": {"qid": "request.qid", "alpha": "does.not.exist"}})),
+        ("csv_beta_fails", json!({"type": "csv", "sorted": true, "mapping": {"qid": "request.qid", "beta": "route.no_such_field"}})),
+        ("csv_clean", json!({"type": "csv", "sorted": false, "mapping": {"qid": "request.qid", "d": {"optional": "route.traversal_summary.distance"}}})),
+        ("jsonl", json!({"type": "json", "newline_delimited": true})),
+    ];
+    let mut lists: Vec<Vec<usize>> = vec![];
+    for a in 0..sinks.len() {
+        for b in 0..sinks.len() {
+            if a != b {
+                lists.push(vec![a, b]);
+                for c in 0..sinks.len() {
+                    if c != a && c != b {
+                        lists.push(vec![a, b, c]);
+                    }
+                }
+            }
+        }
+    }
+    let run_with = |list: &[usize], q: &Value, tag: &str| -> Result<Value, String> {
+        let policies: Vec<Value> = list
+            .iter()
+            .enumerate()
+            .map(|(i, s)| {
+                let path = fx.scratch.path.join(format!("comb_{}_{}_{}.txt", tag, i, sinks[*s].0));
+                let _ = std::fs::remove_file(&path);
+                json!({"type": "file", "filename": path.to_str().unwrap(), "format": sinks[*s].1, "file_flush_rate": 1})
+            })
+            .collect();
+        let pol = if policies.len() == 1 { policies[0].clone() } else { json!({"type": "combined", "policies": policies}) };
+        let cfg = json!({"parallelism": 1, "response_persistence_policy": "persist_response_in_memory", "response_output_policy": pol});
+        match guarded(|| fx.app.run(vec![q.clone()], Some(&cfg)).map_err(|e| e.to_string())) {
+            Err(p) => Err(format!("panic: {}", p)),
+            Ok(Err(e)) => Err(e),
+            Ok(Ok(r)) => r.first().cloned().ok_or_else(|| "no response".to_string()),
+        }
+    };
+    for (qi, qidx) in [0usize, 2].iter().enumerate() {
+        let q = tagq(&qa[*qidx], &format!("comb{}", qi));
+        for (li, list) in lists.iter().enumerate() {
+            st.evaluations += 1;
+            st.transitions += list.len() as u64;
+            st.traces += 1;
+            st.states += 1;
+            st.nontrivial += 1;
+            let names: Vec<&str> = list.iter().map(|s| sinks[*s].0).collect();
+            let comp = "combined_sinks".to_string();
+            let case = || json!({"combined_sinks": names, "query": q});
+            let whole = match run_with(list, &q, &format!("w{}_{}", qi, li)) {
+                Ok(r) => r,
+                Err(e) => {
+                    st.violation(&comp, "run_succeeds", list.len() as u64, || e.clone(), case);
+                    continue;
+                }
+            };
+            // what each proper prefix of the list leaves in the response must still be in it after the whole list
+            let mut ok = true;
+            for k in 1..list.len() {
+                let part = match run_with(&list[..k], &q, &format!("p{}_{}_{}", qi, li, k)) {
+                    Ok(r) => r,
+                    Err(_) => continue,
+                };
+                let (pe, we) = (part.get("error").cloned().unwrap_or(Value::Null), whole.get("error").cloned().unwrap_or(Value::Null));
+                let (pc, wc) = (part.get("csv_error").cloned().unwrap_or(Value::Null), whole.get("csv_error").cloned().unwrap_or(Value::Null));
+                if !(pe.is_null() || leaves_kept(&pe, &we)) || !(pc.is_null() || leaves_kept(&pc, &wc)) || part.get("route") != whole.get("route") || part.get("request") != whole.get("request") {
+                    ok = false;
+                    st.violation(&comp, "returned_response_keeps_its_information", list.len() as u64, || format!("after the first {} sink(s) the response holds error {} csv_error {}; after all {} it holds error {} csv_error {}", k, pe, pc, list.len(), we, wc), case);
+                    break;
+                }
+            }
+            if ok {
+                st.pass("later_sinks_keep_what_earlier_sinks_noted");
+            }
+        }
+    }
+}
+
 pub fn run(tier: Tier) -> i32 {
     let info = RunInfo::new("C19", tier);
     let fx = match fixture() {
@@ -739,6 +831,7 @@ pub fn run(tier: Tier) -> i32 {
     };
     st.sample(2, || json!({"scenario": "2x2_jsonl_1_keep", "tasks": 2, "queries_per_task": 2, "schedule": [0, 0, 1, 0, 0, 1], "meaning": "choice index among enabled tasks at each lock/write/flush point; 0 = running task continues"}));
     histories(&fx, tier, &mut st, None);
+    combined_sinks(&fx, &mut st);
     st.sample(4, || json!({"history": {"format": "csv_optional", "persistence": "persist_response_in_memory", "parallelism": 3, "runs": [[0, 2], [1, 4, 3]]}}));
     let assumptions = vec![
         "shared state between workers is only reachable through the five hooked mutex sites and the output file (source scan recorded in DESIGN §2.3); rayon's own scheduler is trusted".into(),
@@ -749,7 +842,7 @@ pub fn run(tier: Tier) -> i32 {
     finish(
         &info,
         st,
-        "(a) state = one complete schedule (choice sequence over lock/write/flush points) of K one-thread worker pools each running the real run_batch_with_responses / run_batch_without_responses on its batch against one shared ResponseSink; 2x2 scenarios explored completely, 3-task scenarios up to the stated preemption bound; oracle on the final file and the returned responses; (b) state = one history of 1-3 CompassApp::run calls appending to the same file x format x persistence policy x parallelism; non-trivial = schedule with at least one preemption / history with more than one run",
+        "(a) state = one complete schedule (choice sequence over lock/write/flush points) of K one-thread worker pools each running the real run_batch_with_responses / run_batch_without_responses on its batch against one shared ResponseSink; 2x2 scenarios explored completely, 3-task scenarios up to the stated preemption bound; oracle on the final file and the returned responses; (b) state = one history of 1-3 CompassApp::run calls appending to the same file x format x persistence policy x parallelism; (b') one response written by every ordered pair and triple of four sinks of a combined policy (two CSV sinks with a failing column each, a clean one, JSON lines): what a prefix of the list leaves in the response handed back is still there after the whole list; non-trivial = schedule with at least one preemption / history with more than one run",
         true,
         Value::Object(bounds),
         assumptions,
@@ -844,7 +937,9 @@ pub fn replay(case: &Value) -> i32 {
             // an append history (or an input-plugin-failure batch, which is part of the same pass): run it again without the tier
             let mut st = Stats::new();
             let c = if case.get("case").is_some() { &case["case"] } else { case };
-            if c.get("runs").is_some() {
+            if c.get("combined_sinks").is_some() {
+                combined_sinks(&fx, &mut st);
+            } else if c.get("runs").is_some() {
                 histories(&fx, Tier::Thorough, &mut st, Some(c));
             } else {
                 histories(&fx, Tier::Thorough, &mut st, Some(&json!({"format": "none"})));
